@@ -17,11 +17,24 @@ class MapError(Exception):
 
 
 def _mems(block):
-    out = {}
+    """memories of a block under a unique key: the name, or name#id when several memories share a
+    name (names need not be unique; copies keep the id)"""
+    ms = {}
     for n in block.logic:
         if n.op in 'm@':
-            out[n.op_param[1].name] = n.op_param[1]
+            ms[id(n.op_param[1])] = n.op_param[1]
+    names = [m.name for m in ms.values()]
+    out = {}
+    for m in ms.values():
+        out[m.name if names.count(m.name) == 1 else '%s#%d' % (m.name, m.id)] = m
     return out
+
+
+def memkey(block, mem):
+    for k, m in _mems(block).items():
+        if m is mem:
+            return k
+    return mem.name
 
 
 def identity_corr(a_info, b):
@@ -126,8 +139,10 @@ def compose(c1, c2):
                     res.append((bn, lo + lo2, w2))
             out[kind][nm] = res
     for nm, m in c1['mem'].items():
-        if m.name in c2['mem']:
-            out['mem'][nm] = c2['mem'][m.name]
+        # c2 is keyed by the intermediate block's memory keys: same scheme, same ids
+        for k2, m2 in c2['mem'].items():
+            if k2 == m.name or k2 == '%s#%d' % (m.name, m.id):
+                out['mem'][nm] = m2
     return out
 
 
@@ -180,7 +195,53 @@ def seq(*names):
     return key
 
 
+def _foreign(fn):
+    """run a pass on `block` (handed over through its block= argument) while an unrelated, healthy
+    block is the working block"""
+    def run(block):
+        other = pyrtl.Block()
+        with pyrtl.set_working_block(other, no_sanity_check=True):
+            fi = pyrtl.Input(1, 'foreign_in')
+            fo = pyrtl.Output(1, 'foreign_out')
+            fo <<= ~fi
+        old = pyrtl.working_block()
+        pyrtl.set_working_block(other, no_sanity_check=True)
+        try:
+            return fn(block)
+        finally:
+            pyrtl.set_working_block(old, no_sanity_check=True)
+    return run
+
+
+def _blockfn_nowb(fn):
+    def run(block):
+        ai = info(block)
+        _quiet(lambda: fn(block))
+        return block, identity_corr(ai, block)
+    return run
+
+
+FOREIGN = {
+    'optimize_copy': _optimize_copy,
+    'copy_block': _copy,
+    'synthesize_noupdate': _synth(update_working_block=False),
+    'two_way_fanout': _blockfn_nowb(lambda b: pyrtl.two_way_fanout(block=b)),
+    'nand_synth': _blockfn_nowb(lambda b: pyrtl.nand_synth(block=b)),
+    'and_inverter_synth': _blockfn_nowb(lambda b: pyrtl.and_inverter_synth(block=b)),
+    'two_way_concat': _blockfn_nowb(lambda b: pyrtl.two_way_concat(block=b)),
+    'one_bit_selects': _blockfn_nowb(lambda b: pyrtl.one_bit_selects(block=b)),
+    'direct_connect_outputs': _blockfn_nowb(lambda b: pyrtl.direct_connect_outputs(block=b)),
+    'constant_propagation': _blockfn_nowb(lambda b: pyrtl.constant_propagation(b, True)),
+    'common_subexp_elimination': _blockfn_nowb(lambda b: pyrtl.common_subexp_elimination(b)),
+}
+
+
 def get(name):
+    if name.endswith('@foreign'):
+        base = name[:-len('@foreign')]
+        if name not in PASSES:
+            PASSES[name] = _foreign(FOREIGN[base])
+        return PASSES[name]
     if name not in PASSES and '+' in name:
         seq(*name.split('+'))
     return PASSES[name]
